@@ -255,7 +255,8 @@ impl Header {
     pub fn files_excluded(&self) -> Option<Vec<String>> {
         self.0
             .get("Files-Excluded")
-            .map(|x| x.split('\n').map(|x| x.to_string()).collect::<Vec<_>>())
+            // a whitespace-separated list, like Files
+            .map(|x| x.split_whitespace().map(|x| x.to_string()).collect::<Vec<_>>())
     }
 
     /// Set excluded files
